@@ -21,6 +21,7 @@ func init() {
 	verifRegister("verifC01Str", verifC01Str)
 	verifRegister("verifC01Coll", verifC01Coll)
 	verifRegister("verifC01Nested", verifC01Nested)
+	verifRegister("verifC01NestedSet", verifC01NestedSet)
 }
 
 // c01WeakenNum returns a placeholder for the number n (finite quarter or infinity) built through the real API.
@@ -507,6 +508,58 @@ func verifC01Nested() {
 	var s Value
 	p := vExpectPanic(func() { s = apply(lhsW, rhsW) })
 	vMapOrder(false)
+	vAssert("weakened-does-not-fail", !p)
+	if p {
+		return
+	}
+	vAssert("weakened-admits-concrete", c01Admits(s, r))
+	vReach("end")
+}
+
+// unknowns nested inside the members of a set: membership and length must stay approximations
+func verifC01NestedSet() {
+	x, y := vInt("x", 0, 1), vInt("y", 0, 1)
+	u, w := vInt("u", 0, 1), vInt("w", 0, 1)
+	q, r0 := vInt("q", 0, 1), vInt("r", 0, 1)
+	shape := vChoice("shape", 3)
+	mk := func(p, q Value) Value {
+		switch shape {
+		case 0:
+			return ObjectVal(map[string]Value{"a": p, "b": q})
+		case 1:
+			return TupleVal([]Value{p, q})
+		}
+		return ListVal([]Value{p, q})
+	}
+	weak := func(tag string, k int64) Value {
+		if vChoice(tag+"-weaken", 2) == 1 {
+			return UnknownVal(Number)
+		}
+		return NumberIntVal(k)
+	}
+	n := 1 + vChoice("n", 2)
+	conc := []Value{mk(NumberIntVal(x), NumberIntVal(y))}
+	weakd := []Value{mk(NumberIntVal(x), weak("y", y))}
+	if n == 2 {
+		conc = append(conc, mk(NumberIntVal(u), NumberIntVal(w)))
+		weakd = append(weakd, mk(weak("u", u), NumberIntVal(w)))
+	}
+	probe := mk(NumberIntVal(q), NumberIntVal(r0))
+	op := vChoice("op", 2)
+	apply := func(members []Value) Value {
+		s := SetVal(members)
+		if op == 0 {
+			return s.HasElement(probe)
+		}
+		return s.Length()
+	}
+	var r Value
+	if vExpectPanic(func() { r = apply(conc) }) {
+		vReach("concrete-fails")
+		return
+	}
+	var s Value
+	p := vExpectPanic(func() { s = apply(weakd) })
 	vAssert("weakened-does-not-fail", !p)
 	if p {
 		return
